@@ -221,6 +221,57 @@ Theorem c05_first_cookie_refuted :
    exists c, nth 6 (snd (run (cfg_first_cookie true) init w_first)) None = Some c /\ ciat c = 3000%Z).
 Proof. exact old_first_cookie. Qed.
 
+(* LOGINS WITH SESSION COOKIES ATTACHED.  A login request may carry any auth_cookie values the server ever issued
+   (`Login u pw_ok cs`): a session of the same user that holds second factors — still valid or long expired —,
+   a session of another user, junk, several of them.  None of it is a credential of the login.  In EVERY state,
+   with every certificate / write fault and whatever is attached: if the login answers with a session cookie then
+   the password was right, and the cookie is exactly {the user who logged in, the password level, iat = now,
+   exp = now + the cookie lifetime}; it is the newest issued cookie's claim and its one factor is on record as
+   verified now.  So the level of a new session is the password level only (consistent with
+   c06_login_mints_password_only on the gate side), and c05_inv — which quantifies over all histories, hence over
+   all logins with attachments — holds with the verification instant of every factor >= the session's iat *)
+Theorem c05_login_mints_password_only : forall d w okta life cert fault s u pw_ok cs s' c,
+  step (fixed_with d w okta life) s (Req cert fault (Login u pw_ok cs)) = (s', Some c) ->
+  pw_ok = true /\
+  c = {| cuser := u; clevel := add 0 F_PW; ciat := now s; cexp := (now s + 57600)%Z |} /\
+  In c (issued s') /\ In (u, F_PW, now s) (proved s') /\
+  (forall f, has (clevel c) f = true -> f = F_PW).
+Proof.
+  intros d w okta life cert fault s u pw_ok cs s' c H. cbn [step] in H.
+  destruct (login_mints_password_only _ _ _ _ _ _ _ _ _ H) as (H1 & H2 & H3 & H4).
+  assert (Hn : now (present_cert s cert) = now s) by (destruct cert; reflexivity). rewrite Hn in H2, H4.
+  split; [exact H1|]. split; [exact H2|]. split; [exact H3|]. split; [exact H4|].
+  intros f Hf. rewrite H2 in Hf. exact (login_level_bits f Hf).
+Qed.
+
+(* ... stated for the bare operation and every configuration of the model (also the older handlers) *)
+Theorem c05_login_mints_password_only_any : forall k cert fault s u pw_ok cs s' c,
+  step_req k cert fault s (Login u pw_ok cs) = (s', Some c) ->
+  pw_ok = true /\
+  c = {| cuser := u; clevel := add 0 F_PW; ciat := now s; cexp := (now s + cookie_life k)%Z |} /\
+  In c (issued s') /\ In (u, F_PW, now s) (proved s').
+Proof. exact login_mints_password_only. Qed.
+
+(* the attached cookies are no input of the login: same user and password => same answer and same state *)
+Theorem c05_login_ignores_attached : forall k cert fault s u pw_ok cs cs',
+  step_req k cert fault s (Login u pw_ok cs) = step_req k cert fault s (Login u pw_ok cs').
+Proof. exact login_ignores_attached. Qed.
+
+(* a loginHandler that lets the new session keep the second factors of the attached session cookie of the same
+   user (Model.Session.login_carry; the old cookie's exp is not looked at): user 1 verifies a hardware token at
+   3000; 60000 s later that session is expired and authenticates nothing; attached to a password login it gives
+   the NEW session (iat 63000) the U2F bit although U2F was verified for user 1 only before that instant — the
+   conclusion of c05_inv fails.  The login of the model mints the password level at iat 63000 *)
+Theorem c05_login_carry_refuted :
+  let k := cfg_with true true true true in
+  let s := fst (run k init w_carry) in
+  session k s [1%nat] any_mask = None /\
+  (exists c, snd (login_carry k s 1 [1%nat]) = Some c /\ In c (issued (fst (login_carry k s 1 [1%nat]))) /\
+             cuser c = 1%N /\ has (clevel c) F_U2F = true /\ ciat c = 63000%Z /\
+             forall t, In (1%N, F_U2F, t) (proved (fst (login_carry k s 1 [1%nat]))) -> (t < ciat c)%Z) /\
+  (exists c, snd (step k s (Login 1 true [1%nat])) = Some c /\ clevel c = add 0 F_PW /\ ciat c = 63000%Z).
+Proof. exact login_carry_unjustified. Qed.
+
 (* non-vacuity: a complete two-factor history; the TOTP value stops working; the other user's
    session attached FIRST is not the one that is upgraded; a certificate-authenticated upgrade of
    the own cookie replaces its level by certificate|factor *)
@@ -228,7 +279,7 @@ Example c05_history :
   let d := fun _ => {| has_totp := true; has_u2f := false; has_wa := false; has_profile := true |} in
   map (fun o => match o with Some c => Some (cuser c, clevel c) | None => None end)
       (snd (run (fixed d 64) init
-        [Tick 3000; Login 1 true; Login 2 true; Totp [1%nat; 0%nat] (TCode 1 100); Totp [0%nat] (TCode 1 100);
+        [Tick 3000; Login 1 true []; Login 2 true []; Totp [1%nat; 0%nat] (TCode 1 100); Totp [0%nat] (TCode 1 100);
          Totp [1%nat] (TCode 1 100); ShowTok [2%nat] 1000; SendDoc [2%nat] 0; SendDoc [1%nat] 0;
          Req (Some 1%N) false (Totp [1%nat] (TCode 1 101)); Req (Some 1%N) false (Totp [0%nat] (TCode 1 101));
          Tick 30; Req (Some 1%N) false (Totp [0%nat] (TCode 1 102))]))
@@ -243,7 +294,7 @@ Example c05_begin_twice :
   let d := fun _ => {| has_totp := false; has_u2f := true; has_wa := false; has_profile := true |} in
   map (fun ob => match ob with (ok, c, i) => (ok, match c with Some c => Some (clevel c) | None => None end, i) end)
       (run_obs (fixed d 8) init
-        [Login 1 true; U2fBegin [0%nat]; Tick 31; U2fBegin [0%nat]; U2fFinish [0%nat] (asrt 1 0 false);
+        [Login 1 true []; U2fBegin [0%nat]; Tick 31; U2fBegin [0%nat]; U2fFinish [0%nat] (asrt 1 0 false);
          U2fFinish [0%nat] (asrt 1 1 false); U2fFinish [0%nat] (asrt 1 1 false)])
   = [(true, Some 2, None); (true, None, Some 0); (true, None, None); (true, None, Some 1); (false, None, None);
      (true, Some 10, None); (false, None, None)]%N.
@@ -258,15 +309,15 @@ Example c05_okta_history :
   let d := fun _ : N => {| has_totp := false; has_u2f := false; has_wa := false; has_profile := true |} in
   map (fun ob => match ob with (ok, c, i) => (ok, match c with Some c => Some (cuser c, clevel c) | None => None end) end)
       (run_obs (fixed_okta d 128 300) init
-        [Login 1 true; Login 2 true; OktaOtp [1%nat] (VGood 1); OktaOtp [0%nat] (VGood 1);
+        [Login 1 true []; Login 2 true []; OktaOtp [1%nat] (VGood 1); OktaOtp [0%nat] (VGood 1);
          OktaPushStart [1%nat]; OktaPoll [1%nat]; OktaApprove 2; OktaPoll [0%nat]; OktaPoll [1%nat]; OktaPoll [1%nat];
-         Tick 300; OktaOtp [1%nat] (VGood 2); Login 2 true; OktaOtp [4%nat] (VGood 2)])
+         Tick 300; OktaOtp [1%nat] (VGood 2); Login 2 true []; OktaOtp [4%nat] (VGood 2)])
   = [(true, Some (1, 2)); (true, Some (2, 2)); (false, None); (true, Some (1, 130)); (true, None); (false, None);
      (true, None); (false, None); (true, Some (2, 130)); (false, None); (true, None); (false, None);
      (true, Some (2, 2)); (true, Some (2, 130))]%N /\
   map (fun ob => match ob with (ok, c, i) => (ok, match c with Some c => Some (cuser c, clevel c) | None => None end) end)
       (run_obs (fixed d 128) init
-        [Login 1 true; OktaOtp [0%nat] (VGood 1); OktaPushStart [0%nat]; OktaApprove 1; OktaPoll [0%nat]])
+        [Login 1 true []; OktaOtp [0%nat] (VGood 1); OktaPushStart [0%nat]; OktaApprove 1; OktaPoll [0%nat]])
   = [(true, Some (1, 2)); (false, None); (false, None); (true, None); (false, None)]%N.
 Proof. split; vm_compute; reflexivity. Qed.
 
@@ -307,7 +358,7 @@ Example c05_refused_examples :
   refused kx s_pending (Bootstrap [1%nat] (BCode 2 0)) = false /\
   refused kx s_pending (Totp [0%nat] TBad) = true /\
   refused kx s_pending (Totp [0%nat] (TCode 1 100)) = false /\
-  snd (both kx (fst (both kx s_pending (Bootstrap [1%nat] BBad) (Bootstrap [1%nat] (BCode 2 0)))) (Login 2 true) (Bootstrap [3%nat] (BCode 2 0))) = (snd (step kx s_pending (Login 2 true)), None).
+  snd (both kx (fst (both kx s_pending (Bootstrap [1%nat] BBad) (Bootstrap [1%nat] (BCode 2 0)))) (Login 2 true []) (Bootstrap [3%nat] (BCode 2 0))) = (snd (step kx s_pending (Login 2 true [])), None).
 Proof. exact refused_examples. Qed.
 
 (* THE CLIENT ADDRESS.  A request reaches the handlers with an address (r.RemoteAddr, and whatever
